@@ -46,12 +46,12 @@ CLAIMED["C19"] = ("TLA+ Ownership (strong holders = program handles, container, 
   "All states over 3 objects / <=2 weak edges (thorough <=3) incl. cycles and self-loops / <=2 handles / container / one live result x every enabled action, each built from scratch.", "§4 C19")
 
 CLAIMED["C17"] = ("TLA+ Locks (every public call as a program of lock steps, poisoning, Linearize property layer) explored by TLC over every scenario x interleaving; the same scenarios executed with real threads on the real RwLocks under a deterministic scheduler on the lock-point hook (all grant sequences, real blocking probed, writer preference simulated); per scenario the real outcome set must equal the model's, every outcome is judged by TLC (Linearizable, panic, poison, deadlock); listed design defects reported as KNOWN-FINDING by scenario class",
-  "All scenarios of 2 threads x 1 call over 2 nodes and initial graphs with <=1 edge, plus <=2 edges with values {1,2} (quick: on the real locks only the initial graphs with parallel edges of different values; thorough: all, and 3 nodes), a rotational 3-thread family, every interleaving of lock acquisitions: ~12 000 scenarios / ~560 000 real executions per quick run. 26 scenario classes are genuine, unrepaired design-level defects (known_findings.json, replayable examples in known_findings_replays/); any other failing class is a VIOLATION. Also a free-running stress round and the liveness property EveryRunEnds.", "§4 C17")
+  "All scenarios of 2 threads x 1 call over 2 nodes and initial graphs with <=1 edge, plus <=2 edges with values {1,2} (quick: on the real locks only the initial graphs with parallel edges of different values; thorough: all, and 3 nodes), a rotational 3-thread family, every interleaving of lock acquisitions: ~12 000 scenarios / ~560 000 real executions per quick run. 26 scenario classes are genuine, unrepaired design-level defects (known_findings.json, replayable examples in known_findings_replays/); any other failing class is a VIOLATION. Also free-running stress rounds judged by TraceLocks (every second one a churn round: one thread creating / connecting / disconnecting / dropping short-lived neighbours while three threads iterate and search) and the liveness property EveryRunEnds.", "§4 C17")
 
 CLAIMED["C14"] = ("TLA+ Macros (invocation ASTs, Denote = the insert/connect fold or a panic naming the unlisted key, MacroOK property layer) enumerated and checked (FoldOK) by TLC; every AST x 4 forms x 4 macros rendered as Rust source, compiled against the working tree and run; observed graph / panic compared with the emitted denotation, disagreements judged by TLC",
   "All invocations with <=2 node entries (thorough <=3) over keys {1,2} with targets in {1,2,3} (3 = unlisted), absent / empty / non-empty edge lists, self-loops, repeats, forward references x 4 forms x 4 macros (~2 700 generated programs per quick run) plus the *_node!/*_connect! helpers.", "§4 C14")
 CLAIMED["C16"] = ("TLA+ SendSync (auto-trait derivation as a greatest fixed point over the recursive node types, explicit unsafe impls as data, property layer Allowed / NoRace) checked by TLC for all 64 capability assignments; the compiler's actual Send/Sync table for 4 flavours x {Node, Edge, Graph} x 64 witness payload combinations (generated probe crate) judged row by row by TLC; generic positive obligations must type-check",
-  "Exhaustive over the capability lattice {Send+Sync, Send only, Sync only, neither}^3; by parametricity this decides 'only if' for all payload types.", "§4 C16")
+  "Exhaustive over the capability lattice {Send+Sync, Send only, Sync only, neither}^3; by parametricity this decides 'only if' for all payload types. Plus 220 carrier rows (search builders with their type-erased callback: never Send/Sync; iterators and paths: only if all payloads are Send+Sync), obtained through the public API and probed at value level.", "§4 C16")
 
 NOT_YET = {}
 props = [json.loads(l) for l in open(os.path.join(V, "properties.jsonl"))]
